@@ -191,37 +191,60 @@ Theorem iter_df_final_only : forall g : frame,
                            (set_first_label 0 (fun r => set_iter g r 0) (number_from 0 (map snd (rows_with g code_final))))).
 Proof. intros g H1 H2. unfold get_iter_df. rewrite H1, H2. reflexivity. Qed.
 
-(* ... and the objective value reported for the run (results._parse_ofv, one estimation table) is the OBJ entry
-   of the row NONMEM designates.  The remaining guard is needed: see Refuted.v. *)
-Theorem ofv_designated : forall (t : table) (g : frame) (c : cell) (entries : list (nat * cell * cell)),
-    design_of t = None -> ext_data_frame (tb_frame t) = ROk g ->
+(* ... and the objective value reported for the run (results._parse_ofv) is the OBJ entry of the row NONMEM
+   designates — for ANY number of tables in the ext file: the last table that is not an optimal-design table
+   decides, whatever the earlier tables contain.  The remaining guard is needed: see Refuted.v. *)
+Theorem ofv_designated : forall (ts : list table) (k : nat) (t : table) (g : frame) (c : cell)
+                                (entries : list (nat * cell * cell)),
+    last_opt (est_tables ts) = Some (k, t) -> ext_data_frame (tb_frame t) = ROk g ->
     g_final_obj_eq_last g = true ->
-    parse_ofv [t] = ROk (c, entries) ->
+    parse_ofv ts = ROk (c, entries) ->
     exists i r, In (i, r) (f_rows g) /\ row_has_code g code_final (i, r) = true /\
                 (forall ir, In ir (f_rows g) -> row_has_code g code_final ir = true -> ir = (i, r)) /\
                 c = obj_cell g r.
 Proof.
-  intros t g c entries Hd Hg HF H.
-  apply get_ofv_row. exact (ofv_designated_lemma t g c entries Hd Hg HF H).
+  intros ts k t g c entries Hl Hg HF H.
+  apply get_ofv_row. exact (ofv_designated_any_lemma ts k t g c entries Hl Hg HF H).
 Qed.
 
-(* ... and so are the run's parameter estimates (results._parse_parameter_estimates, one estimation table): the
-   entries of the designated row (ext_final_row), minus the columns that row -1000000006 (or, without it, the model)
-   marks as fixed, renamed through the model's name map; unless the last printed iteration carries no value at all,
-   in which case NaN is reported for every estimate. *)
-Theorem pe_designated : forall (t : table) (g : frame) (pfix : list (text * bool)) (nm : list (text * text))
-                               (fpe : list (text * cell)) (cols : list text) (rows : list (nat * cell * list cell))
-                               (sd : option (list (text * cell))),
-    design_of t = None -> ext_data_frame (tb_frame t) = ROk g ->
+(* ... and so are the run's parameter estimates (results._parse_parameter_estimates), again for any number of
+   tables: the entries of the designated row of the last estimation table (ext_final_row), minus the columns that
+   row -1000000006 (or, without it, the model) marks as fixed, renamed through the model's name map; only when the
+   last printed iteration of that table has no value in any estimated column NaN is reported under those names. *)
+Theorem pe_designated : forall (ts : list table) (k : nat) (t : table) (g : frame) (pfix : list (text * bool))
+                               (nm : list (text * text)) (fpe : list (text * cell)) (cols : list text)
+                               (rows : list (nat * cell * list cell)) (sd : option (list (text * cell))),
+    last_opt (est_tables ts) = Some (k, t) -> ext_data_frame (tb_frame t) = ROk g ->
     g_final_obj_eq_last g = true ->
-    parse_parameter_estimates [t] pfix nm = ROk (fpe, cols, rows, sd) ->
-    exists fx,
+    parse_parameter_estimates ts pfix nm = ROk (fpe, cols, rows, sd) ->
+    exists fx i rl,
       get_fixed_parameters g pfix nm = ROk fx /\
-      ((exists fe, final_parameter_estimates g = ROk fe /\
-                   fpe = map (fun nc => (rename_with nm (fst nc), snd nc))
-                             (drop_names (fixed_names_of fx (drop_first_last (f_cols g))) fe))
-       \/ forallb (fun nc => is_nan (snd nc)) fpe = true).
-Proof. exact pe_designated_lemma. Qed.
+      last_opt (filter (fun ir => cell_ge0 (iter_cell g (snd ir))) (f_rows g)) = Some (i, rl) /\
+      let pcols := drop_first_last (f_cols g) in
+      let lastvals := keep_mask (keep_of fx pcols) (drop_first_last rl) in
+      if forallb is_nan lastvals
+      then fpe = combine cols lastvals
+      else exists fe, final_parameter_estimates g = ROk fe /\
+                      fpe = map (fun nc => (rename_with nm (fst nc), snd nc)) (drop_names (fixed_names_of fx pcols) fe).
+Proof. exact pe_designated_any_lemma. Qed.
+
+(* se_designated (results._parse_standard_errors, any number of tables: the LAST table of the file decides, design
+   tables included): with rows -1000000001 and -1000000005 the standard errors are the former's entries and the
+   sd/corr variant takes the latter's OMEGA/SIGMA entries, fixed columns dropped, model names; without row
+   -1000000001 nothing is reported; with -1000000001 but without -1000000005 the covariance step counts as aborted. *)
+Theorem se_designated : forall (ts : list table) (t : table) (g : frame) (pfix : list (text * bool))
+                               (nm : list (text * text)) (ses sesd : option (list (text * cell))) (abort : bool),
+    last_opt ts = Some t -> ext_data_frame (tb_frame t) = ROk g ->
+    parse_standard_errors ts pfix nm = ROk (ses, sesd, abort) ->
+    (exists fx se_row sd_row,
+        get_fixed_parameters g pfix nm = ROk fx /\ standard_errors g = ROk se_row /\
+        omega_sigma_se_stdcorr g = ROk sd_row /\
+        ses = Some (renamed nm (not_fixed fx se_row)) /\
+        sesd = Some (update_with (renamed nm (not_fixed fx se_row)) (renamed nm (not_fixed fx sd_row))) /\ abort = false)
+    \/ (standard_errors g = RErr 3%N /\ ses = None /\ sesd = None /\ abort = false)
+    \/ (exists se_row, standard_errors g = ROk se_row /\ omega_sigma_se_stdcorr g = RErr 3%N /\
+                        ses = None /\ sesd = None /\ abort = true).
+Proof. exact se_designated_lemma. Qed.
 
 (* ---- cov / cor / coi ---------------------------------------------------------------------------------------- *)
 
@@ -244,6 +267,18 @@ Theorem cov_symmetric_square : forall (V : list (list cell)) (n : nat),
     kept_rows V = kept_cols V n.
 Proof. exact cov_symmetric_same_kept. Qed.
 
+(* matrix_designated (results._parse_matrix for .cov / .cor / .coi): the matrix reported is CovTable.data_frame
+   (cov_drop_fixed_exact: exactly the all-zero rows / columns dropped) of the table whose number is the LAST table
+   number of the ext file, rows AND columns labelled with the renamed row labels. *)
+Theorem matrix_designated : forall (raw : text) (nm : list (text * text)) (tn : list N) (m : matrix),
+    parse_matrix (Some raw) nm tn = ROk (Some m) ->
+    exists tables n tb m0,
+      read_table_file SCov false false raw = ROk tables /\ last_opt tn = Some n /\
+      find (fun tb => N.eqb (number_of tb) n) tables = Some tb /\
+      cov_data_frame (tb_frame tb) = ROk m0 /\ length (m_rows m0) = length (m_cols m0) /\
+      m = mkMatrix (map (rename_with nm) (m_rows m0)) (map (rename_with nm) (m_rows m0)) (m_vals m0).
+Proof. exact matrix_designated_lemma. Qed.
+
 (* ---- phi: triangular numbers and the symmetric matrix ---------------------------------------------------------- *)
 
 (* triangular_root_correct, for every n (integer model of floor(sqrt(2x)); the float engine is compared in the tie) *)
@@ -262,6 +297,36 @@ Theorem flattened_symmetric : forall (A : Type) (z : A) (x : list A) (n : nat),
       forall r c, c <= r -> r < n ->
         mget z m r c = nth (r * (r + 1) / 2 + c) x z /\ mget z m c r = nth (r * (r + 1) / 2 + c) x z.
 Proof. intros A z x n H. exact (flattened_symmetric_lemma z x n H). Qed.
+
+(* phi_designated (results._parse_phi): individual OFV, estimates and their covariances come from the last phi
+   table that is not an optimal-design table: the individuals with any non-zero entry, ID and OBJ as written, the
+   ETA / PHI columns unchanged under the model's eta names, and per individual the symmetric matrix of the flattened
+   ETC / PHC columns (phi_etcs_symmetric + flattened_symmetric), re-ordered like the model's etas. *)
+Theorem phi_designated : forall (raw : text) (nm : list (text * text)) (rv : list text) (pr : phi_results),
+    parse_phi (Some raw) nm rv = ROk (Some pr) ->
+    exists tables tb keys idx mats c0,
+      read_table_file SPhi false false raw = ROk tables /\
+      last_opt (filter (fun tb => match design_of tb with None => true | Some _ => false end) tables) = Some tb /\
+      let v := phi_view_of (tb_frame tb) in
+      pr_ids pr = p_ids v /\ pr_iofv pr = p_iofv v /\ pr_ie pr = p_etas v /\
+      p_eta_names v = c0 :: tl (p_eta_names v) /\
+      pr_ie_cols pr = map (rename_with (map (fun ia => (paren_name (firstn 3 c0) (fst ia), snd ia)) (number_from 1 rv)))
+                          (p_eta_names v) /\
+      rsequence (p_etcs v) = Some mats /\
+      rsequence (map (alookup nm) (p_etc_names v)) = Some keys /\
+      rsequence (map (fun r => index_of r keys) rv) = Some idx /\
+      pr_iec pr = map (select_sub idx) mats.
+Proof. exact phi_designated_lemma. Qed.
+
+Theorem phi_etcs_are_symmetric : forall (f : frame) (k n : nat) (m : list (list cell)),
+    nth k (p_etcs (phi_view_of f)) None = Some m ->
+    (forall ir, In ir (phi_nonzero_rows f) -> length (select_cols f is_etc_col (snd ir)) = n * (n + 1) / 2) ->
+    k < length (phi_nonzero_rows f) ->
+    dims m n /\
+    forall r c, c <= r -> r < n ->
+      let x := select_cols f is_etc_col (snd (nth k (phi_nonzero_rows f) (0, []))) in
+      mget (CNum 0) m r c = nth (r * (r + 1) / 2 + c) x (CNum 0) /\ mget (CNum 0) m c r = nth (r * (r + 1) / 2 + c) x (CNum 0).
+Proof. exact phi_etcs_symmetric. Qed.
 
 (* ---- the defining relations ---------------------------------------------------------------------------------
    Over the exact field Q, with np.sqrt as an ORACLE: a Section variable sq that is only assumed to be a positive
@@ -318,3 +383,21 @@ Theorem corrse_of_cov_from_corrse_R : forall (n : nat) (corr : Mat) (sd : nat ->
     (i < n)%nat -> (j < n)%nat -> (forall k, (k < n)%nat -> 0 < sd k) -> (forall k, (k < n)%nat -> corr k k = 1) ->
     se_from_cov (corr2cov n corr sd) i = sd i /\ cov2corr (corr2cov n corr sd) i j = corr i j.
 Proof. exact corrse_from_cov_roundtrip. Qed.
+
+(* ---- .lst: the fixed-format facts of results_file.py (C20/Lst.v) --------------------------------------------------
+   parse_render_lst_partial: for every well-formed written block (any table number, method, outcome
+   SUCCESSFUL / TERMINATED (+ ROUNDING ERRORS | MAX EVALUATIONS) / OPTIMIZATION WAS COMPLETED, near-boundary line,
+   any digit strings for the function evaluations, significant digits and estimation time, every covariance line)
+   the rows between #TERM: and #TERE: are read back as exactly the written termination facts, and the rows after
+   #TERE: as the written covariance status and estimation time.  "partial": the tag state machine that cuts the
+   file into these rows (tag_items / table_blocks) is modelled and tied by the correspondence and shown on examples
+   (Examples.ex_lst_file), but not proved for all files. *)
+From PV Require Import C20.Lst C20.LstProofs.
+
+Theorem parse_render_lst_partial_term : forall b : wblock,
+    wblock_ok b = true -> parse_termination (render_term_rows b) = term_of_wblock b.
+Proof. exact parse_termination_render_lemma. Qed.
+
+Theorem parse_render_lst_partial_tere : forall b : wblock,
+    wblock_ok b = true -> parse_tere (render_tere_rows b) = tere_of_wblock b.
+Proof. exact parse_tere_render_lemma. Qed.
